@@ -155,7 +155,8 @@ class Gen:
         f = {}
         r = rng.random()
         if r < 0.5:
-            f['sender'] = rng.choice(['org.freedesktop.DBus', ':1.0', ':1.1', 'com.example.A', ':9.9'])
+            f['sender'] = rng.choice(['org.freedesktop.DBus', ':1.0', ':1.1', 'com.example.A', ':9.9',
+                                      ':1.' + '9' * rng.randint(1, 14), 'a.' + 'b' * rng.randint(1, 20)])
         if rng.random() < 0.4:
             f['unknown'] = [(rng.choice([11, 12, 42, 127, 255]), rng.choice(['s', 'u', 'as', '(su)', 'v']), None)]
             vs = f['unknown'][0][1]
